@@ -12,6 +12,8 @@
 name: str_clear.empty
 define: VP=str, U_CLEAR, U_EMPTY
 src: str.c, obj.c
+native: str
+native_includes: str.c
 enforce: spif_str_clear
 backend: sat,z3
 timeout: 200
@@ -21,6 +23,8 @@ flags: --slice-formula
 name: str_clear.nonempty
 define: VP=str, U_CLEAR, U_NONEMPTY
 src: str.c, obj.c
+native: str
+native_includes: str.c
 enforce: spif_str_clear
 backend: sat,z3
 timeout: 200
@@ -30,6 +34,8 @@ flags: --slice-formula
 name: str_upcase.empty
 define: VP=str, U_UPCASE, U_EMPTY
 src: str.c, obj.c
+native: str
+native_includes: str.c
 enforce: spif_str_upcase
 tier: B
 unwind: 2
@@ -39,6 +45,8 @@ bound: empty (NULL,0,0) state only - the loop is unwound twice instead of being 
 name: str_upcase.nonempty
 define: VP=str, U_UPCASE, U_NONEMPTY
 src: str.c, obj.c
+native: str
+native_includes: str.c
 enforce: spif_str_upcase
 loops: 1
 */
@@ -46,6 +54,8 @@ loops: 1
 name: str_downcase.empty
 define: VP=str, U_DOWNCASE, U_EMPTY
 src: str.c, obj.c
+native: str
+native_includes: str.c
 enforce: spif_str_downcase
 tier: B
 unwind: 2
@@ -55,6 +65,8 @@ bound: empty (NULL,0,0) state only - the loop is unwound twice instead of being 
 name: str_downcase.nonempty
 define: VP=str, U_DOWNCASE, U_NONEMPTY
 src: str.c, obj.c
+native: str
+native_includes: str.c
 enforce: spif_str_downcase
 loops: 1
 */
@@ -62,6 +74,8 @@ loops: 1
 name: str_reverse.empty
 define: VP=str, U_REVERSE, U_EMPTY
 src: str.c, obj.c
+native: str
+native_includes: str.c
 enforce: spif_str_reverse
 replace: strrev
 */
@@ -69,6 +83,8 @@ replace: strrev
 name: str_reverse.nonempty
 define: VP=str, U_REVERSE, U_NONEMPTY
 src: str.c, obj.c
+native: str
+native_includes: str.c
 enforce: spif_str_reverse
 replace: strrev
 */
@@ -76,6 +92,8 @@ replace: strrev
 name: str_trim.empty
 define: VP=str, VCAP=8, U_FIXED_BUF=8, U_TRIM, U_EMPTY
 src: str.c, obj.c
+native: str
+native_includes: str.c
 enforce: spif_str_trim
 tier: B
 unwind: 12
@@ -88,6 +106,8 @@ checks_off: --conversion-check
 name: str_trim.len0
 define: VP=str, VCAP=8, U_FIXED_BUF=8, U_TRIM, U_NONEMPTY, U_LEN0
 src: str.c, obj.c
+native: str
+native_includes: str.c
 enforce: spif_str_trim
 tier: B
 unwind: 12
@@ -100,6 +120,8 @@ checks_off: --conversion-check
 name: str_trim.blank1
 define: VP=str, VCAP=8, U_FIXED_BUF=8, U_TRIM, U_NONEMPTY, U_BLANK1
 src: str.c, obj.c
+native: str
+native_includes: str.c
 enforce: spif_str_trim
 tier: B
 unwind: 12
@@ -112,6 +134,8 @@ checks_off: --conversion-check
 name: str_trim.text
 define: VP=str, VCAP=8, U_FIXED_BUF=8, U_TRIM, U_NONEMPTY, U_TEXT
 src: str.c, obj.c
+native: str
+native_includes: str.c
 enforce: spif_str_trim
 tier: B
 unwind: 12
@@ -124,6 +148,8 @@ checks_off: --conversion-check
 name: ustr_clear.empty
 define: VP=ustr, U_CLEAR, U_EMPTY
 src: ustr.c, obj.c
+native: str
+native_includes: ustr.c
 enforce: spif_ustr_clear
 backend: sat,z3
 timeout: 200
@@ -133,6 +159,8 @@ flags: --slice-formula
 name: ustr_clear.nonempty
 define: VP=ustr, U_CLEAR, U_NONEMPTY
 src: ustr.c, obj.c
+native: str
+native_includes: ustr.c
 enforce: spif_ustr_clear
 backend: sat,z3
 timeout: 200
@@ -142,6 +170,8 @@ flags: --slice-formula
 name: ustr_upcase.empty
 define: VP=ustr, U_UPCASE, U_EMPTY
 src: ustr.c, obj.c
+native: str
+native_includes: ustr.c
 enforce: spif_ustr_upcase
 tier: B
 unwind: 2
@@ -151,6 +181,8 @@ bound: empty (NULL,0,0) state only - the loop is unwound twice instead of being 
 name: ustr_upcase.nonempty
 define: VP=ustr, U_UPCASE, U_NONEMPTY
 src: ustr.c, obj.c
+native: str
+native_includes: ustr.c
 enforce: spif_ustr_upcase
 loops: 1
 */
@@ -158,6 +190,8 @@ loops: 1
 name: ustr_downcase.empty
 define: VP=ustr, U_DOWNCASE, U_EMPTY
 src: ustr.c, obj.c
+native: str
+native_includes: ustr.c
 enforce: spif_ustr_downcase
 tier: B
 unwind: 2
@@ -167,6 +201,8 @@ bound: empty (NULL,0,0) state only - the loop is unwound twice instead of being 
 name: ustr_downcase.nonempty
 define: VP=ustr, U_DOWNCASE, U_NONEMPTY
 src: ustr.c, obj.c
+native: str
+native_includes: ustr.c
 enforce: spif_ustr_downcase
 loops: 1
 */
@@ -174,6 +210,8 @@ loops: 1
 name: ustr_reverse.empty
 define: VP=ustr, U_REVERSE, U_EMPTY
 src: ustr.c, obj.c
+native: str
+native_includes: ustr.c
 enforce: spif_ustr_reverse
 replace: strrev
 */
@@ -181,6 +219,8 @@ replace: strrev
 name: ustr_reverse.nonempty
 define: VP=ustr, U_REVERSE, U_NONEMPTY
 src: ustr.c, obj.c
+native: str
+native_includes: ustr.c
 enforce: spif_ustr_reverse
 replace: strrev
 */
@@ -188,6 +228,8 @@ replace: strrev
 name: ustr_trim.empty
 define: VP=ustr, VCAP=8, U_FIXED_BUF=8, U_TRIM, U_EMPTY
 src: ustr.c, obj.c
+native: str
+native_includes: ustr.c
 enforce: spif_ustr_trim
 tier: B
 unwind: 12
@@ -200,6 +242,8 @@ checks_off: --conversion-check
 name: ustr_trim.len0
 define: VP=ustr, VCAP=8, U_FIXED_BUF=8, U_TRIM, U_NONEMPTY, U_LEN0
 src: ustr.c, obj.c
+native: str
+native_includes: ustr.c
 enforce: spif_ustr_trim
 tier: B
 unwind: 12
@@ -212,6 +256,8 @@ checks_off: --conversion-check
 name: ustr_trim.blank1
 define: VP=ustr, VCAP=8, U_FIXED_BUF=8, U_TRIM, U_NONEMPTY, U_BLANK1
 src: ustr.c, obj.c
+native: str
+native_includes: ustr.c
 enforce: spif_ustr_trim
 tier: B
 unwind: 12
@@ -224,6 +270,8 @@ checks_off: --conversion-check
 name: ustr_trim.text
 define: VP=ustr, VCAP=8, U_FIXED_BUF=8, U_TRIM, U_NONEMPTY, U_TEXT
 src: ustr.c, obj.c
+native: str
+native_includes: ustr.c
 enforce: spif_ustr_trim
 tier: B
 unwind: 12
